@@ -70,13 +70,13 @@ func init() {
 		ID:       "C03",
 		Patterns: []string{"."},
 		Assumptions: []string{
+			"keys of the membership, invitation, member and hold maps are lowered names (requires only-*-canonical of Marshal: they are only ever inserted as ChanToLower(...)/NickToLower(...)), channel modes below 'A' are never set",
 			"proto.Marshal/proto.Unmarshal are inverse on pb.Snapshot up to Go-level representation (nil vs empty): the contracts relate the server state to the pb.Snapshot value on both sides of that dependency through the same predicates (sessRepr, modesRepr, cfgRepr); an empty ban map may come back as nil (handled by the relation)",
 			"snapshots are taken between entries: no session is marked deleted (wfAlive), every session has its creation time and last non-ping activity set (requires legacy-created of Marshal: both are set from the entry's timestamp by createSessionLocked), user modes below 'A' are never set (requires modes-letters)",
 			"Unmarshal runs on a server fresh from NewIRCServer (requires fresh-server) and on a snapshot written by Marshal (assume@after proto.Unmarshal: the shape facts wfSnapSessions/wfSnapTop/wfSnapNicks, each of which Marshal is proved to establish - wfSnapNicks from the handlers' invariants wfOwner/wfNicks/wfAlive, which hold between entries)",
 			"time.Unix(0, t.UnixNano()) == t for every non-zero time of the program (wall clock, years 1678-2262); Duration.String/ParseDuration and hex.EncodeToString/DecodeString are inverse (contracts/deps.spec)",
 		},
 		NotCovered: []string{
-			"set-valued session fields Channels and invitedTo: proved for Unmarshal (the loaded sets are exactly the lowered names listed in the wire form); the matching obligation for Marshal (every key listed once) ran into a quantifier-instantiation loop in all three solvers and is not claimed",
 			"'from then on produces the same output for every continuation' is the consequence of state equality plus determinism (C01); it is not a separate obligation",
 			"serverSessions of a live server may also hold ids of services links that have ended (it is never pruned); the restored list holds exactly the live ones; they differ only in ids that address no live session",
 		},
@@ -85,6 +85,7 @@ func init() {
 		p.Units = []UnitPlan{
 			{"ircserver.timestampToTime", post}, {"ircserver.timeToTimestamp", post},
 			{"ircserver.IRCServer.Marshal", g("sess")}, {"ircserver.IRCServer.Marshal", g("config")}, {"ircserver.IRCServer.Marshal", g("holds")}, {"ircserver.IRCServer.Marshal", g("chanw")}, {"ircserver.IRCServer.Marshal", g("chanwc")},
+			{"ircserver.IRCServer.Marshal", g("setw")}, {"ircserver.IRCServer.Marshal", g("setwc")},
 			{"ircserver.IRCServer.Marshal", vc.UnitOpts{AssertsOnly: true, Groups: []string{"sess", "sessnicks"}}},
 			{"ircserver.IRCServer.Unmarshal", g("sessin", "sessrepr")}, {"ircserver.IRCServer.Unmarshal", g("sessin", "nicks")},
 			{"ircserver.IRCServer.Unmarshal", g("sessin", "services")}, {"ircserver.IRCServer.Unmarshal", g("sessin", "modes")},
@@ -98,8 +99,8 @@ func init() {
 		return fieldCoverage(e, []fieldRule{
 			{pkg: "ircserver", typ: "Session", param: "s", preds: []string{"sessRepr", "modesRepr"}, excluded: map[string]string{
 				"deleted":   "false in every state a snapshot is taken in (wfAlive holds between entries)",
-				"Channels":  "HALF COVERED: the reader side (Unmarshal builds exactly the set of lowered names, chansRepr) is proved; the writer side (Marshal lists every key exactly once) is not discharged",
-				"invitedTo": "HALF COVERED: as Channels",
+				"Channels":  "chansRepr (reader), setsSound + setsComplete (writer; lemma_sets_halves joins them)",
+				"invitedTo": "as Channels",
 			}},
 			{pkg: "config", typ: "Network", param: "c", preds: []string{"cfgRepr"}, excluded: map[string]string{}},
 			{pkg: "ircserver", typ: "svshold", param: "h", preds: []string{"holdRepr"}, excluded: map[string]string{}},
@@ -113,7 +114,7 @@ func init() {
 		})
 	}
 	p.ExtraUnits = func(e *vc.Engine) ([]*vc.Unit, error) {
-		return lemmaUnits(e, "ircserver", "ircserver.lemma_sessrepr_functional", "ircserver.lemma_cfgrepr_functional")
+		return lemmaUnits(e, "ircserver", "ircserver.lemma_sessrepr_functional", "ircserver.lemma_cfgrepr_functional", "ircserver.lemma_sets_halves")
 	}
 	register(p)
 }
